@@ -149,6 +149,7 @@ type Explorer struct {
 
 	mem     map[int]*Term // addr term ID -> content
 	cells   map[int]*Term // addr term ID -> addr term
+	etrail  []envTrail
 	mtrail  []memTrail
 	facts   map[int]bool
 	known   map[int]*Term // term ID -> constant it is known to equal
@@ -184,7 +185,7 @@ func (x *Explorer) Paths(fn *ssa.Function, o Opts, cb func(*Path)) (int, error) 
 	x.mem, x.cells = map[int]*Term{}, map[int]*Term{}
 	x.facts, x.known = map[int]bool{}, map[int]*Term{}
 	x.bounds = map[int]bound{}
-	x.mtrail, x.ftrail, x.events, x.lits, x.blocks = nil, nil, nil, nil, nil
+	x.etrail, x.mtrail, x.ftrail, x.events, x.lits, x.blocks = nil, nil, nil, nil, nil, nil
 	x.counter, x.epoch, x.paths, x.err = 0, 0, 0, nil
 	x.allocN = map[*ssa.Alloc]int{}
 	x.cb = cb
@@ -235,16 +236,42 @@ func (x *Explorer) next() int { x.counter++; return x.counter }
 
 // ---- state save / restore ----
 
+type envTrail struct {
+	fr      *frame
+	v       ssa.Value
+	old     *Term
+	existed bool
+}
+
 type snapshot struct {
+	etrail                               int
 	mtrail, ftrail, events, lits, blocks int
 	counter, epoch                       int
 }
 
 func (x *Explorer) save() snapshot {
-	return snapshot{len(x.mtrail), len(x.ftrail), len(x.events), len(x.lits), len(x.blocks), x.counter, x.epoch}
+	return snapshot{len(x.etrail), len(x.mtrail), len(x.ftrail), len(x.events), len(x.lits), len(x.blocks), x.counter, x.epoch}
+}
+
+// setEnv binds an SSA value in a frame; the binding is undone on backtracking
+// (a deeper path may re-enter a loop head and rebind values that dominate the
+// branch point we return to).
+func (x *Explorer) setEnv(fr *frame, v ssa.Value, t *Term) {
+	old, ok := fr.env[v]
+	x.etrail = append(x.etrail, envTrail{fr, v, old, ok})
+	fr.env[v] = t
 }
 
 func (x *Explorer) restore(s snapshot) {
+	for i := len(x.etrail) - 1; i >= s.etrail; i-- {
+		t := x.etrail[i]
+		if t.existed {
+			t.fr.env[t.v] = t.old
+		} else {
+			delete(t.fr.env, t.v)
+		}
+	}
+	x.etrail = x.etrail[:s.etrail]
 	for i := len(x.mtrail) - 1; i >= s.mtrail; i-- {
 		t := x.mtrail[i]
 		if t.existed {
